@@ -6,7 +6,8 @@ From Pika Require Import Base.Conc Base.Agent Model.Semaphore Proofs.SemaphorePr
 Import ListNotations.
 Local Open Scope Z_scope.
 
-Definition is_release (o : sop) : Prop := match o with Release n => 0 <= n | _ => False end.
+(* releasers may also deliver stale resumes to anybody at any time (weak agent contract) *)
+Definition is_release (o : sop) : Prop := match o with Release n => 0 <= n | StaleResume _ => True | _ => False end.
 
 Definition x_local (l : sem_l) : Prop :=
   (pc l = Idle /\ (todo l = [TimedAcquire 1] \/ todo l = [])) \/ (pc l = TSleep 1 /\ todo l = [TimedAcquire 1]).
@@ -37,12 +38,6 @@ Lemma upd_x_other {L} (ls : nat -> L) t l t' : t' <> t -> upd ls t l t' = ls t'.
 Proof. intros H. unfold upd. apply Nat.eqb_neq in H. now rewrite H. Qed.
 Lemma upd_x_same {L} (ls : nat -> L) t l : upd ls t l t = l.
 Proof. unfold upd. now rewrite Nat.eqb_refl. Qed.
-
-(* a releaser's notify step: touches value only before (caller), pops at most the head *)
-Lemma notify_scn v0 x g ls t l k :
-  t <> x -> l = ls t -> Scn v0 x g ls -> todo l <> [] -> Forall is_release (todo l) ->
-  let r := notify (fun n => match n with _ => OsThr end) t g l true k in True.
-Proof. trivial. Qed.
 
 Lemma rm_single x : rm x [x] = [].
 Proof. unfold rm. cbn. now rewrite Nat.eqb_refl. Qed.
@@ -116,7 +111,7 @@ Proof.
         exfalso. specialize (sc_inq0 ltac:(rewrite Hq; now left)). congruence.
       * constructor; scn_fin;
           try (intros Hin; specialize (sc_wait0 Hin); (lia || (exfalso; lia)));
-          try (rewrite Htd; cbn; tauto).
+          try (unfold done_l; cbn [todo]; rewrite Htd; cbn; tauto).
         intros e [<-|He]; cbn; [discriminate|auto].
     + (* finished *)
       constructor; scn_fin.
@@ -129,12 +124,12 @@ Proof.
            match goal with |- context [if ?b then _ else _] => destruct b eqn:Hlt end; cbn in Hlt; zb'; cbn [fst snd].
            ++ constructor; scn_fin.
            ++ assert (acquired g = 0) by (apply sc_pending0; rewrite Htd; discriminate).
-              constructor; scn_fin.
+              constructor; scn_fin; try (unfold done_l; cbn [todo]; rewrite Htd; cbn; tauto).
               intros e [<-|He]; cbn; [discriminate|auto].
         -- (* timeout *)
            rewrite mem_single. unfold fail_op, arrive. rewrite Hq, rm_single. cbn [fst snd].
            assert (value g < 1) by (apply sc_wait0; rewrite Hq; now left).
-           constructor; scn_fin.
+           constructor; scn_fin; try (unfold done_l; cbn [todo]; rewrite Htd; cbn; tauto).
            intros e [<-|He]; cbn; [|auto]. intros _ _. assumption.
       * cbn [fst snd]. destruct (kind x); constructor; scn_fin.
   - (* a releaser *)
@@ -145,9 +140,12 @@ Proof.
     unfold sem_tstep.
     destruct Hp as [Hpc|[[[k Hpc]|[w [k Hpc]]] Htne]]; rewrite Hpc.
     + destruct (todo (ls t)) as [|op rest] eqn:Htd.
-      { constructor; rewrite ?Hx; auto. apply Hoth. split; [rewrite Htd; constructor|now left]. }
-      inversion Hf as [|? ? Hop Hrest]; subst. destruct op; cbn in Hop; try contradiction.
-      destruct (is_free g); [|constructor; rewrite ?Hx; auto; apply Hoth; split; [rewrite Htd; auto|now left]].
+      { constructor; rewrite ?Hx; auto. apply Hoth. exact (sc_others0 t Hne). }
+      inversion Hf as [|? ? Hop Hrest]; subst. destruct op as [| | | |n| | | |w0]; cbn in Hop; try contradiction;
+        [|cbn [fst snd];
+          assert (Hl : rel_local (done_l (ls t))) by (split; [cbn; rewrite Htd; exact Hrest|now left]);
+          destruct (kind w0); constructor; cbn; rewrite ?Hx; auto; apply Hoth; exact Hl].
+      destruct (is_free g); [|constructor; rewrite ?Hx; auto; apply Hoth; exact (sc_others0 t Hne)].
       set (g1 := set_released (set_value g (value g + n)) (released g + n)).
       pose proof (notify_cases kind t g1 (ls t) n) as Hn. cbv zeta in Hn.
       destruct (notify kind t g1 (ls t) true n) as [g' l'] eqn:Hnot. cbn [fst snd] in *.
@@ -170,12 +168,14 @@ Proof.
       constructor; rewrite ?Hx; auto.
       * rewrite Hval, Hacq, Hrel. cbn. lia.
       * rewrite Hval. cbn. lia.
-      * apply Hoth. eapply rel_local_after; eauto. rewrite Htd; discriminate.
+      * apply Hoth. eapply rel_local_after; eauto; try rewrite Htd; try discriminate; auto.
       * intros Hne'. rewrite Hacq. cbn. auto.
       * intros e He. destruct Hlog as [Hl|[e' [Hl He']]]; rewrite Hl in He; cbn in He.
         -- auto.
         -- destruct He as [<-|He]; [intros Ht; congruence|auto].
-    + destruct (is_free g); [|constructor; rewrite ?Hx; auto; apply Hoth; split; auto; right; split; eauto].
+      * intros Hin. apply sc_inq0. destruct Hqq as [Hq'|Hq']; rewrite Hq' in Hin; cbn in Hin; [exact Hin|].
+        destruct (queue g); cbn in *; auto.
+    + destruct (is_free g); [|constructor; rewrite ?Hx; auto; apply Hoth; exact (sc_others0 t Hne)].
       pose proof (notify_cases kind t g (ls t) k) as Hn. cbv zeta in Hn.
       destruct (notify kind t g (ls t) true k) as [g' l'] eqn:Hnot. cbn [fst snd] in *.
       destruct Hn as (Hval & Hacq & Hrel & Hqq & Hlog & _ & Hpc').
@@ -187,7 +187,9 @@ Proof.
       * intros e He. destruct Hlog as [Hl|[e' [Hl He']]]; rewrite Hl in He; cbn in He.
         -- auto.
         -- destruct He as [<-|He]; [intros Ht; congruence|auto].
-    + destruct (blocked (ag g w)); [|constructor; rewrite ?Hx; auto; apply Hoth; split; auto; right; split; eauto].
+      * intros Hin. apply sc_inq0. destruct Hqq as [Hq'|Hq']; rewrite Hq' in Hin; cbn in Hin; [exact Hin|].
+        destruct (queue g); cbn in *; auto.
+    + destruct (blocked (ag g w)); [|constructor; rewrite ?Hx; auto; apply Hoth; exact (sc_others0 t Hne)].
       set (g1 := set_holder (set_ag g (upd (ag g) w (a_resume (ag g w)))) None).
       pose proof (after_resume_cases t g1 (ls t) k) as Hn. cbv zeta in Hn.
       destruct (after_resume t g1 (ls t) true k) as [g' l'] eqn:Hnot. cbn [fst snd] in *.
@@ -205,11 +207,9 @@ Definition releasers_only (x : nat) (progs : nat -> list sop) : Prop :=
 Lemma scn_init v0 lo0 md x progs : 0 <= v0 -> releasers_only x progs ->
   Scn v0 x (sem_init v0 lo0 md) (sem_locals progs).
 Proof.
-  intros Hv [Hx Ho]. constructor; cbn; auto; try lia.
+  intros Hv [Hx Ho]. constructor; cbn; auto; try lia; try tauto.
   - left. cbn. auto.
   - intros t Ht. split; [now apply Ho|now left].
-  - intros [].
-  - intros _ [].
 Qed.
 
 (* A timed acquire of one permit, with any number of concurrent releasers and nobody else
